@@ -588,6 +588,40 @@ theorem World.setConn_ids (w : World) (cn : Conn) :
   · rename_i h; simp at h; exact h.symm
   · rfl
 
+/-! ### no panic site is hit by an accepted NICK -/
+
+theorem renameInChannels_panicked (old new : Str) (chs : List Str) (w : World) (hnd : chs.Nodup)
+    (hall : ∀ ch ∈ chs, ∃ C, Map.lookup ch w.channels = some C ∧ Map.contains old C.users = true) :
+    (renameInChannels old new chs w).panicked = w.panicked := by
+  rw [renameInChannels_eq]
+  induction chs generalizing w with
+  | nil => rfl
+  | cons a rest ih =>
+    simp only [List.foldl_cons]
+    obtain ⟨C, hC, hold⟩ := hall a List.mem_cons_self
+    obtain ⟨chum, hchum⟩ := (Map.contains_iff _ _).mp hold
+    have hstep : renStep old new w a =
+        { w with channels := Map.insert a ((C.renameUser old new).getD C) w.channels } := by
+      unfold renStep; rw [hC]; simp only; rw [renameUser_some hchum]; rfl
+    rw [ih]
+    · rw [hstep]
+    · exact (List.nodup_cons.mp hnd).2
+    · intro ch hch
+      have hne : a ≠ ch := by
+        intro e; subst e; exact (List.nodup_cons.mp hnd).1 hch
+      obtain ⟨C2, hC2, h2⟩ := hall ch (List.mem_cons_of_mem _ hch)
+      refine ⟨C2, ?_, h2⟩
+      rw [hstep]; simp only
+      rw [Map.lookup_insert_ne _ _ _ _ hne]; exact hC2
+
+theorem nickWorld_panicked (old new : Str) (user : User) (w : World) (hnd : user.channels.Nodup)
+    (hall : ∀ ch ∈ user.channels,
+      ∃ C, Map.lookup ch w.channels = some C ∧ Map.contains old C.users = true) :
+    (nickWorld old new user w).panicked = w.panicked := by
+  unfold nickWorld World.pushHistory
+  simp only
+  split <;> exact renameInChannels_panicked old new user.channels _ hnd hall
+
 /-! ### a small concrete world satisfying `InvCore` (for the non-vacuity examples) -/
 
 theorem rank_of_chk (users : Map ChanUserModes) (lst : KSet) (flag : ChanUserModes → Bool)
@@ -732,5 +766,608 @@ theorem inv : InvCore w where
     rcases users_cases h with ⟨rfl, rfl⟩ | ⟨rfl, rfl⟩ <;> cases hk
 
 end Ex
+
+/-! ### C16: leaving a channel -/
+
+theorem removeUser_some {C : Channel} {n : Str} (h : Map.contains n C.users = true) :
+    C.removeUser n = some { C with
+      users := Map.erase n C.users
+      modes := { C.modes with
+        operators := KSet.erase n C.modes.operators
+        halfOperators := KSet.erase n C.modes.halfOperators
+        founders := KSet.erase n C.modes.founders
+        voices := KSet.erase n C.modes.voices
+        protecteds := KSet.erase n C.modes.protecteds } } := by
+  unfold Channel.removeUser; simp [h]
+
+theorem removeUser_none {C : Channel} {n : Str} (h : Map.contains n C.users = false) :
+    C.removeUser n = none := by
+  unfold Channel.removeUser; simp [h]
+
+theorem removeUser_eq_some {C C' : Channel} {n : Str} (h : C.removeUser n = some C') :
+    Map.contains n C.users = true := by
+  cases hc : Map.contains n C.users with
+  | true => rfl
+  | false => rw [removeUser_none hc] at h; cases h
+
+/-- what `remove_user_from_channel` does to the channel it names: unchanged if `n` is not a
+    member (the Rust code panics there), otherwise `n` is taken out and the channel is dropped
+    if it became empty and is not preconfigured -/
+def rmOpt (n : Str) (C : Channel) : Option Channel :=
+  match C.removeUser n with
+  | none => some C
+  | some C' => if C'.users.isEmpty && !C'.preconfigured then none else some C'
+
+theorem rmOpt_idem (n : Str) (o : Option Channel) :
+    (o.bind (rmOpt n)).bind (rmOpt n) = o.bind (rmOpt n) := by
+  cases o with
+  | none => rfl
+  | some C =>
+    simp only [Option.bind_some]
+    unfold rmOpt
+    cases h : C.removeUser n with
+    | none => simp [h]
+    | some C' =>
+      simp only
+      split
+      · rfl
+      · simp only [Option.bind_some]
+        have hc := removeUser_eq_some h
+        rw [removeUser_some hc] at h
+        cases h
+        have : Map.contains n (Map.erase n C.users) = false := by
+          rw [Map.contains_false_iff]; simp
+        rw [removeUser_none (by simpa using this)]
+
+section
+variable (w : World) (ch n : Str)
+
+theorem rufc_users : (w.removeUserFromChannel ch n).users =
+    Map.modify n (fun u => { u with channels := KSet.erase ch u.channels }) w.users := by
+  unfold World.removeUserFromChannel
+  simp only
+  split
+  · split
+    · rfl
+    · split <;> rfl
+  · rfl
+
+theorem rufc_frame :
+    (w.removeUserFromChannel ch n).wallops = w.wallops ∧
+    (w.removeUserFromChannel ch n).histories = w.histories ∧
+    (w.removeUserFromChannel ch n).conns = w.conns ∧
+    (w.removeUserFromChannel ch n).invisibleCount = w.invisibleCount ∧
+    (w.removeUserFromChannel ch n).operatorsCount = w.operatorsCount ∧
+    (w.removeUserFromChannel ch n).maxUsers = w.maxUsers ∧
+    (w.removeUserFromChannel ch n).connsCount = w.connsCount ∧
+    (w.removeUserFromChannel ch n).srvQuit = w.srvQuit ∧
+    (w.removeUserFromChannel ch n).cmdCounts = w.cmdCounts := by
+  unfold World.removeUserFromChannel
+  simp only
+  split
+  · split
+    · exact ⟨rfl, rfl, rfl, rfl, rfl, rfl, rfl, rfl, rfl⟩
+    · split <;> exact ⟨rfl, rfl, rfl, rfl, rfl, rfl, rfl, rfl, rfl⟩
+  · exact ⟨rfl, rfl, rfl, rfl, rfl, rfl, rfl, rfl, rfl⟩
+
+theorem rufc_lookup (k : Str) :
+    Map.lookup k (w.removeUserFromChannel ch n).channels =
+      if k = ch then (Map.lookup k w.channels).bind (rmOpt n) else Map.lookup k w.channels := by
+  unfold World.removeUserFromChannel
+  simp only
+  by_cases e : k = ch
+  · subst e
+    simp only [↓reduceIte]
+    cases h : Map.lookup k w.channels with
+    | none => simp [h]
+    | some C =>
+      simp only [Option.bind_some, rmOpt]
+      cases h2 : C.removeUser n with
+      | none => simp [h]
+      | some C' =>
+        simp only
+        split <;> simp
+  · simp only [e, ↓reduceIte]
+    split
+    · split
+      · rfl
+      · split
+        · simp only; rw [Map.lookup_erase_ne _ _ _ (Ne.symm e)]
+        · simp only; rw [Map.lookup_insert_ne _ _ _ _ (Ne.symm e)]
+    · rfl
+
+/-- the panic flag is raised by `remove_user_from_channel` only when the channel exists and
+    `n` is not a member -/
+theorem rufc_panicked (h : ∀ C, Map.lookup ch w.channels = some C → Map.contains n C.users = true) :
+    (w.removeUserFromChannel ch n).panicked = w.panicked := by
+  unfold World.removeUserFromChannel
+  simp only
+  split
+  · rename_i C hC
+    rw [removeUser_some (h C hC)]
+    simp only
+    split <;> rfl
+  · rfl
+
+end
+
+theorem rufc_fold_lookup (n : Str) (chs : List Str) (w : World) (k : Str) :
+    Map.lookup k (chs.foldl (fun w c => w.removeUserFromChannel c n) w).channels =
+      if k ∈ chs then (Map.lookup k w.channels).bind (rmOpt n) else Map.lookup k w.channels := by
+  induction chs generalizing w with
+  | nil => simp
+  | cons a rest ih =>
+    simp only [List.foldl_cons, List.mem_cons]
+    rw [ih, rufc_lookup]
+    by_cases e : k = a
+    · subst e
+      simp only [↓reduceIte, true_or]
+      split
+      · exact rmOpt_idem n _
+      · rfl
+    · simp [e]
+
+theorem rufc_fold_users (n : Str) (chs : List Str) (w : World) (h : Map.lookup n w.users = none) :
+    (chs.foldl (fun w c => w.removeUserFromChannel c n) w).users = w.users := by
+  induction chs generalizing w with
+  | nil => rfl
+  | cons a rest ih =>
+    simp only [List.foldl_cons]
+    have hu : (w.removeUserFromChannel a n).users = w.users := by
+      rw [rufc_users, Map.modify_of_lookup_none h]
+    rw [ih _ (by rw [hu]; exact h), hu]
+
+theorem rufc_fold_frame (n : Str) (chs : List Str) (w : World) :
+    (chs.foldl (fun w c => w.removeUserFromChannel c n) w).wallops = w.wallops ∧
+    (chs.foldl (fun w c => w.removeUserFromChannel c n) w).histories = w.histories ∧
+    (chs.foldl (fun w c => w.removeUserFromChannel c n) w).conns = w.conns := by
+  induction chs generalizing w with
+  | nil => exact ⟨rfl, rfl, rfl⟩
+  | cons a rest ih =>
+    simp only [List.foldl_cons]
+    have f := rufc_frame w a n
+    have := ih (w.removeUserFromChannel a n)
+    rw [f.1, f.2.1, f.2.2.1] at this
+    exact this
+
+/-! ### `World.removeUser` -/
+
+theorem removeUser_of_none {w : World} {n : Str} (h : Map.lookup n w.users = none) :
+    w.removeUser n = w := by
+  unfold World.removeUser; rw [h]
+
+/-- the bookkeeping part of `remove_user` (user entry, counters, wallops set) -/
+def removeUserPre (w : World) (nick : Str) (user : User) : World :=
+  let w := { w with users := Map.erase nick w.users }
+  let w := if user.modes.isLocalOper then
+      (if w.operatorsCount = 0 then w.panic "remove_user: operators_count underflow"
+       else { w with operatorsCount := w.operatorsCount - 1 })
+    else w
+  let w := if user.modes.invisible then
+      (if w.invisibleCount = 0 then w.panic "remove_user: invisible_users_count underflow"
+       else { w with invisibleCount := w.invisibleCount - 1 })
+    else w
+  { w with wallops := KSet.erase nick w.wallops }
+
+theorem removeUser_eq {w : World} {n : Str} {user : User} (h : Map.lookup n w.users = some user) :
+    w.removeUser n =
+      (user.channels.foldl (fun w chn => w.removeUserFromChannel chn n)
+        (removeUserPre w n user)).pushHistory n user.history := by
+  unfold World.removeUser; rw [h]; rfl
+
+theorem removeUserPre_users (w : World) (n : Str) (user : User) :
+    (removeUserPre w n user).users = Map.erase n w.users := by
+  unfold removeUserPre; simp only
+  repeat' split
+  all_goals rfl
+
+theorem removeUserPre_channels (w : World) (n : Str) (user : User) :
+    (removeUserPre w n user).channels = w.channels := by
+  unfold removeUserPre; simp only
+  repeat' split
+  all_goals rfl
+
+theorem removeUserPre_wallops (w : World) (n : Str) (user : User) :
+    (removeUserPre w n user).wallops = KSet.erase n w.wallops := by
+  unfold removeUserPre; simp only
+  repeat' split
+  all_goals rfl
+
+theorem removeUserPre_histories (w : World) (n : Str) (user : User) :
+    (removeUserPre w n user).histories = w.histories := by
+  unfold removeUserPre; simp only
+  repeat' split
+  all_goals rfl
+
+theorem removeUserPre_conns (w : World) (n : Str) (user : User) :
+    (removeUserPre w n user).conns = w.conns := by
+  unfold removeUserPre; simp only
+  repeat' split
+  all_goals rfl
+
+theorem removeUser_lookup_channel {w : World} {n : Str} {user : User}
+    (h : Map.lookup n w.users = some user) (k : Str) :
+    Map.lookup k (w.removeUser n).channels =
+      if k ∈ user.channels then (Map.lookup k w.channels).bind (rmOpt n)
+      else Map.lookup k w.channels := by
+  rw [removeUser_eq h]
+  show Map.lookup k (user.channels.foldl (fun w chn => w.removeUserFromChannel chn n)
+        (removeUserPre w n user)).channels = _
+  rw [rufc_fold_lookup, removeUserPre_channels]
+
+theorem removeUser_users {w : World} {n : Str} {user : User}
+    (h : Map.lookup n w.users = some user) :
+    (w.removeUser n).users = Map.erase n w.users := by
+  rw [removeUser_eq h]
+  show (user.channels.foldl (fun w chn => w.removeUserFromChannel chn n)
+        (removeUserPre w n user)).users = _
+  rw [rufc_fold_users, removeUserPre_users]
+  rw [removeUserPre_users]; simp
+
+theorem removeUser_wallops {w : World} {n : Str} {user : User}
+    (h : Map.lookup n w.users = some user) :
+    (w.removeUser n).wallops = KSet.erase n w.wallops := by
+  rw [removeUser_eq h]
+  show (user.channels.foldl (fun w chn => w.removeUserFromChannel chn n)
+        (removeUserPre w n user)).wallops = _
+  rw [(rufc_fold_frame _ _ _).1, removeUserPre_wallops]
+
+theorem removeUser_histories {w : World} {n : Str} {user : User}
+    (h : Map.lookup n w.users = some user) :
+    (w.removeUser n).histories =
+      Map.insert n ((Map.lookup n w.histories).getD [] ++ [user.history]) w.histories := by
+  rw [removeUser_eq h]
+  unfold World.pushHistory
+  simp only
+  rw [(rufc_fold_frame _ _ _).2.1, removeUserPre_histories]
+
+theorem removeUser_conns (w : World) (n : Str) : (w.removeUser n).conns = w.conns := by
+  cases h : Map.lookup n w.users with
+  | none => rw [removeUser_of_none h]
+  | some user =>
+    rw [removeUser_eq h]
+    show (user.channels.foldl (fun w chn => w.removeUserFromChannel chn n)
+          (removeUserPre w n user)).conns = _
+    rw [(rufc_fold_frame _ _ _).2.2, removeUserPre_conns]
+
+/-! ### C16: joining -/
+
+/-- one round of the insert loop of `process_join` -/
+def joinStep (nick : Str) (w : World) (d : Bool × Bool) (chn : Str) : World :=
+  if d.1 then
+    let w := { w with users := Map.modify nick (fun u =>
+                { u with channels := KSet.insert chn u.channels
+                         invitedTo := KSet.erase chn u.invitedTo }) w.users }
+    if d.2 then
+      { w with channels := Map.insert chn (Channel.newOnUserJoin nick) w.channels }
+    else
+      match Map.lookup chn w.channels with
+      | some ch => { w with channels := Map.insert chn (ch.addUser nick) w.channels }
+      | none => w.panic "join: channel vanished"
+  else w
+
+theorem joinApply_cons (nick : Str) (d : Bool × Bool) (ds : List (Bool × Bool)) (chn : Str)
+    (chs : List Str) (w : World) :
+    joinApply nick (d :: ds) (chn :: chs) w = joinApply nick ds chs (joinStep nick w d chn) := by
+  obtain ⟨j, c⟩ := d
+  rfl
+
+theorem joinApply_nil_left (nick : Str) (chs : List Str) (w : World) :
+    joinApply nick [] chs w = w := by
+  unfold joinApply; rfl
+
+theorem joinApply_nil_right (nick : Str) (ds : List (Bool × Bool)) (w : World) :
+    joinApply nick ds [] w = w := by
+  cases ds <;> rfl
+
+theorem joinStep_lookup (nick : Str) (w : World) (d : Bool × Bool) (chn k : Str) :
+    Map.lookup k (joinStep nick w d chn).channels =
+      if k = chn ∧ d.1 = true then
+        (if d.2 then some (Channel.newOnUserJoin nick)
+         else (Map.lookup k w.channels).map (fun C => C.addUser nick))
+      else Map.lookup k w.channels := by
+  unfold joinStep
+  obtain ⟨j, c⟩ := d
+  cases j with
+  | false => simp
+  | true =>
+    simp only [↓reduceIte, and_true]
+    by_cases e : k = chn
+    · subst e
+      cases c with
+      | true => simp
+      | false =>
+        simp only [Bool.false_eq_true, ↓reduceIte]
+        cases h : Map.lookup k w.channels with
+        | none => simp [h]
+        | some C => simp
+    · simp only [e, ↓reduceIte]
+      cases c with
+      | true => simp only [↓reduceIte]; rw [Map.lookup_insert_ne _ _ _ _ (Ne.symm e)]
+      | false =>
+        simp only [Bool.false_eq_true, ↓reduceIte]
+        split
+        · simp only; rw [Map.lookup_insert_ne _ _ _ _ (Ne.symm e)]
+        · rfl
+
+theorem joinStep_user (nick : Str) (w : World) (d : Bool × Bool) (chn k : Str) :
+    Map.lookup k (joinStep nick w d chn).users =
+      if k = nick ∧ d.1 = true then
+        (Map.lookup k w.users).map (fun u =>
+          { u with channels := KSet.insert chn u.channels, invitedTo := KSet.erase chn u.invitedTo })
+      else Map.lookup k w.users := by
+  unfold joinStep
+  obtain ⟨j, c⟩ := d
+  cases j with
+  | false => simp
+  | true =>
+    simp only [↓reduceIte, and_true]
+    have : ∀ w' : World, w'.users = Map.modify nick (fun u =>
+          { u with channels := KSet.insert chn u.channels
+                   invitedTo := KSet.erase chn u.invitedTo }) w.users →
+        Map.lookup k w'.users = if k = nick then (Map.lookup k w.users).map (fun u =>
+          { u with channels := KSet.insert chn u.channels, invitedTo := KSet.erase chn u.invitedTo })
+          else Map.lookup k w.users := by
+      intro w' hw'
+      rw [hw', Map.lookup_modify]
+      by_cases e : k = nick
+      · simp [e]
+      · simp [e, Ne.symm e]
+    apply this
+    cases c with
+    | true => rfl
+    | false =>
+      simp only [Bool.false_eq_true, ↓reduceIte]
+      split <;> rfl
+
+theorem joinApply_lookup_notin (nick : Str) (ds : List (Bool × Bool)) (chs : List Str) (w : World)
+    (k : Str) (h : k ∉ chs) :
+    Map.lookup k (joinApply nick ds chs w).channels = Map.lookup k w.channels := by
+  induction ds generalizing chs w with
+  | nil => rw [joinApply_nil_left]
+  | cons d ds ih =>
+    cases chs with
+    | nil => rw [joinApply_nil_right]
+    | cons chn chs =>
+      rw [joinApply_cons, ih _ _ (fun hk => h (List.mem_cons_of_mem _ hk)), joinStep_lookup]
+      have : k ≠ chn := fun e => h (e ▸ List.mem_cons_self)
+      simp [this]
+
+theorem joinApply_append (nick : Str) (dpre ds : List (Bool × Bool)) (pre chs : List Str) (w : World)
+    (hlen : dpre.length = pre.length) :
+    joinApply nick (dpre ++ ds) (pre ++ chs) w = joinApply nick ds chs (joinApply nick dpre pre w) := by
+  induction dpre generalizing pre w with
+  | nil =>
+    cases pre with
+    | nil => simp [joinApply_nil_left]
+    | cons _ _ => simp at hlen
+  | cons d dpre ih =>
+    cases pre with
+    | nil => simp at hlen
+    | cons p pre =>
+      simp only [List.cons_append, joinApply_cons]
+      exact ih pre _ (by simpa using hlen)
+
+/-- the joiner's channel set only grows during the insert loop -/
+theorem joinApply_user_mono (nick : Str) (ds : List (Bool × Bool)) (chs : List Str) (w : World)
+    (u : User) (hu : Map.lookup nick w.users = some u) :
+    ∃ u', Map.lookup nick (joinApply nick ds chs w).users = some u' ∧
+      ∀ c, KSet.mem c u.channels = true → KSet.mem c u'.channels = true := by
+  induction ds generalizing chs w u with
+  | nil => rw [joinApply_nil_left]; exact ⟨u, hu, fun _ h => h⟩
+  | cons d ds ih =>
+    cases chs with
+    | nil => rw [joinApply_nil_right]; exact ⟨u, hu, fun _ h => h⟩
+    | cons chn chs =>
+      rw [joinApply_cons]
+      have hs := joinStep_user nick w d chn nick
+      rw [hu] at hs
+      by_cases hj : d.1 = true
+      · simp only [hj, and_self, ↓reduceIte, Option.map_some] at hs
+        obtain ⟨u', hu', hmono⟩ := ih chs _ _ hs
+        refine ⟨u', hu', fun c hc => hmono c ?_⟩
+        simp only [KSet.mem_insert, hc, Bool.or_true]
+      · simp [hj] at hs
+        exact ih chs _ _ hs
+
+/-! ### C16: `Channel.addUser` -/
+
+/-- one rank list stays the mirror of its member flag when a new member is added with the
+    flag `b` and, if `b`, its name is put on the list -/
+theorem rank_add {users : Map ChanUserModes} {nick : Str} (f : ChanUserModes → Bool) (s : KSet)
+    (b : Bool) (chum : ChanUserModes) (hf : f chum = b) (hnew : Map.lookup nick users = none)
+    (hm : ∀ n, KSet.mem n s = true ↔ ∃ m, Map.lookup n users = some m ∧ f m = true) :
+    ∀ n, KSet.mem n (if b then KSet.insert nick s else s) = true ↔
+      ∃ m, Map.lookup n (Map.insert nick chum users) = some m ∧ f m = true := by
+  have hnot : KSet.mem nick s = false := by
+    cases hq : KSet.mem nick s with
+    | false => rfl
+    | true => obtain ⟨m, hm1, _⟩ := (hm nick).mp hq; rw [hnew] at hm1; cases hm1
+  intro n
+  by_cases e : n = nick
+  · subst e
+    rw [Map.lookup_insert_eq]
+    cases b with
+    | true => simp [KSet.mem_insert_self, hf]
+    | false => simp [hnot, hf]
+  · rw [Map.lookup_insert_ne _ _ _ _ (Ne.symm e)]
+    cases b with
+    | true => simp only [↓reduceIte]; rw [KSet.mem_insert_ne _ e]; exact hm n
+    | false => simp only [Bool.false_eq_true, ↓reduceIte]; exact hm n
+
+/-! ### C16: the start-up world -/
+
+/-- the channel `new_from_config` makes of one `[[channels]]` entry -/
+def chanOfCfg (c : ChanCfg) : Channel :=
+  { topic := c.topic.map (fun t => { topic := t, nick := [] })
+    modes := { c.modes with operators := [], halfOperators := [], voices := [],
+                            founders := [], protecteds := [] }
+    defaultModes := { operators := c.modes.operators, halfOperators := c.modes.halfOperators,
+                      voices := c.modes.voices, founders := c.modes.founders,
+                      protecteds := c.modes.protecteds }
+    preconfigured := true }
+
+theorem init_channels (cfg : Cfg) :
+    (World.init cfg).channels =
+      cfg.channels.foldl (fun m c => Map.insert c.name (chanOfCfg c) m) [] := rfl
+
+theorem init_lookup (cfg : Cfg) (k : Str) :
+    Map.lookup k (World.init cfg).channels =
+      (cfg.channels.reverse.find? (fun c => c.name == k)).map chanOfCfg := by
+  rw [init_channels, Map.lookup_foldl_insert (fun c : ChanCfg => c.name) chanOfCfg]
+  cases cfg.channels.reverse.find? (fun c => c.name == k) <;> rfl
+
+/-! ### C16: `rmOpt` on a member -/
+
+/-- `C` with the member `n` taken out of the member map and the five rank lists -/
+def Channel.without (C : Channel) (n : Str) : Channel :=
+  { C with
+    users := Map.erase n C.users
+    modes := { C.modes with
+      operators := KSet.erase n C.modes.operators
+      halfOperators := KSet.erase n C.modes.halfOperators
+      founders := KSet.erase n C.modes.founders
+      voices := KSet.erase n C.modes.voices
+      protecteds := KSet.erase n C.modes.protecteds } }
+
+theorem rmOpt_of_member {C : Channel} {n : Str} (h : Map.contains n C.users = true) :
+    rmOpt n C = if (Map.erase n C.users).isEmpty && !C.preconfigured then none
+                else some (C.without n) := by
+  unfold rmOpt; rw [removeUser_some h]; rfl
+
+theorem rmOpt_of_not_member {C : Channel} {n : Str} (h : Map.contains n C.users = false) :
+    rmOpt n C = some C := by
+  unfold rmOpt; rw [removeUser_none h]
+
+theorem erase_isEmpty_iff (n : Str) (m : Map ChanUserModes) :
+    (Map.erase n m).isEmpty = true ↔ ∀ k, Map.contains k m = true → k = n := by
+  rw [List.isEmpty_iff, Map.erase_eq_nil_iff]
+
+/-! ### C16: PART and KICK are folds of `remove_user_from_channel` -/
+
+/-- two worlds with the same users and channels -/
+def SameUC (w1 w2 : World) : Prop := w1.channels = w2.channels ∧ w1.users = w2.users
+
+theorem SameUC.refl (w : World) : SameUC w w := ⟨rfl, rfl⟩
+theorem SameUC.trans {a b c : World} (h1 : SameUC a b) (h2 : SameUC b c) : SameUC a c :=
+  ⟨h1.1.trans h2.1, h1.2.trans h2.2⟩
+theorem SameUC.symm {a b : World} (h : SameUC a b) : SameUC b a := ⟨h.1.symm, h.2.symm⟩
+
+/-- the channel map after `remove_user_from_channel`, as a function of the channel map -/
+def rufcChannels (chans : Map Channel) (ch n : Str) : Map Channel :=
+  match Map.lookup ch chans with
+  | some C =>
+    match C.removeUser n with
+    | none => chans
+    | some C' =>
+      if C'.users.isEmpty && !C'.preconfigured then Map.erase ch chans else Map.insert ch C' chans
+  | none => chans
+
+theorem rufc_channels (w : World) (ch n : Str) :
+    (w.removeUserFromChannel ch n).channels = rufcChannels w.channels ch n := by
+  unfold World.removeUserFromChannel rufcChannels
+  simp only
+  cases Map.lookup ch w.channels with
+  | none => rfl
+  | some C =>
+    simp only
+    cases C.removeUser n with
+    | none => rfl
+    | some C' => simp only; split <;> rfl
+
+theorem rufc_congr {w1 w2 : World} (h : SameUC w1 w2) (ch n : Str) :
+    SameUC (w1.removeUserFromChannel ch n) (w2.removeUserFromChannel ch n) := by
+  constructor
+  · rw [rufc_channels, rufc_channels, h.1]
+  · rw [rufc_users, rufc_users, h.2]
+
+theorem foldl_sameUC {α : Type} (f : Ctx → α → Ctx) (hf : ∀ x a, SameUC (f x a).w x.w)
+    (l : List α) (x : Ctx) : SameUC (l.foldl f x).w x.w := by
+  induction l generalizing x with
+  | nil => exact SameUC.refl _
+  | cons a rest ih => exact (ih (f x a)).trans (hf x a)
+
+theorem sendDisplay_sameUC (x : Ctx) (n src t : Str) : SameUC (x.sendDisplay n src t).w x.w :=
+  ⟨Ctx.sendDisplay_channels x t src n, Ctx.sendDisplay_users x t src n⟩
+
+/-- one round of PART on the world -/
+def partStep (nick : Str) (w : World) (chn : Str) : World :=
+  match Map.lookup chn w.channels with
+  | some ch => if Map.contains nick ch.users then w.removeUserFromChannel chn nick else w
+  | none => w
+
+theorem partStep_congr {w1 w2 : World} (h : SameUC w1 w2) (nick chn : Str) :
+    SameUC (partStep nick w1 chn) (partStep nick w2 chn) := by
+  unfold partStep
+  rw [h.1]
+  split
+  · split
+    · exact rufc_congr h _ _
+    · exact h
+  · exact h
+
+theorem processPart_world {cfg : Cfg} {c : Nat} {chans : List Str} {reason : Option Str} {x : Ctx}
+    {nick : Str} (hnick : (x.conn c).nick = some nick) :
+    SameUC (processPart cfg c chans reason x).w (chans.foldl (partStep nick) x.w) := by
+  unfold processPart
+  simp only [hnick]
+  generalize x.conn c = cn
+  have key : ∀ (pm : Str → Str) (chans : List Str) (x : Ctx) (w : World), SameUC x.w w →
+      SameUC (chans.foldl (fun x chn =>
+        match Map.lookup chn x.w.channels with
+        | some ch =>
+          if Map.contains nick ch.users then
+            ((Map.keys ch.users).foldl (fun x n => x.sendDisplay n cn.source (pm chn)) x).modifyW
+              (fun w => w.removeUserFromChannel chn nick)
+          else x.reply cfg (Reply.ErrNotOnChannel442 cn.clientName chn)
+        | none => x.reply cfg (Reply.ErrNoSuchChannel403 cn.clientName chn)) x).w
+        (chans.foldl (partStep nick) w) := by
+    intro pm chans
+    induction chans with
+    | nil => intro x w h; exact h
+    | cons a rest ih =>
+      intro x w h
+      simp only [List.foldl_cons]
+      apply ih
+      unfold partStep
+      rw [← h.1]
+      split
+      · split
+        · simp only [Ctx.modifyW_w]
+          apply rufc_congr
+          exact (foldl_sameUC _ (fun x n => sendDisplay_sameUC x n _ _) _ x).trans h
+        · exact h
+      · exact h
+  have fin : ∀ (y : Ctx) (s : String),
+      SameUC (if Map.contains nick y.w.users then y else y.panic s).w y.w := by
+    intro y s; split <;> exact ⟨rfl, rfl⟩
+  exact (fin _ _).trans (key (fun chn => match reason with
+      | some r => str "PART " ++ chn ++ str " :" ++ r
+      | none => str "PART " ++ chn) chans x x.w (SameUC.refl _))
+
+theorem processKick_world {cfg : Cfg} {c : Nat} {channel : Str} {kickUsers : List Str}
+    {comment : Option Str} {x : Ctx} {nick : Str} {ch : Channel} {chum : ChanUserModes}
+    (hnick : (x.conn c).nick = some nick) (hC : Map.lookup channel x.w.channels = some ch)
+    (hchum : Map.lookup nick ch.users = some chum) (hhalf : chum.isHalfOperator = true) :
+    SameUC (processKick cfg c channel kickUsers comment x).w
+      ((kickSelect (x.conn c).clientName channel ch chum.isOnlyHalfOperator kickUsers []).1.foldl
+        (fun w ku => w.removeUserFromChannel channel ku) x.w) := by
+  unfold processKick
+  simp only [hnick, hC, hchum, hhalf, ↓reduceIte]
+  generalize kickSelect (x.conn c).clientName channel ch chum.isOnlyHalfOperator kickUsers [] = p
+  obtain ⟨kicked, errs⟩ := p
+  simp only
+  refine (foldl_sameUC _ ?_ kicked _).trans ?_
+  · intro y ku
+    exact (sendDisplay_sameUC _ _ _ _).trans
+      (foldl_sameUC _ (fun x n => sendDisplay_sameUC x n _ _) _ y)
+  · simp only [Ctx.modifyW_w]
+    have : (errs.foldl (fun x e => x.reply cfg e) x).w = x.w := by
+      generalize x = y
+      induction errs generalizing y with
+      | nil => rfl
+      | cons e es ih => simp only [List.foldl_cons]; rw [ih]; rfl
+    rw [this]
+    exact SameUC.refl _
 
 end Irc
